@@ -10,10 +10,15 @@ against floor(value * 2^dst_frac) computed exactly.
                        s.to_num::<D>() checked_ saturating_ wrapping_ overflowing_
                  C:fwd C:rev
   fx kind Ls Ld a => From / LossyFrom result (legal pairs only)
+  zf Ls Ld a  => the az cast traits (crate feature "az", src/cast.rs): cast checked_cast saturating_cast
+                 wrapping_cast overflowing_cast static_cast
+  zi L s m a i => I->F: the six casts; F->I: the six casts
+  zb L b      => bool->F: the six casts
 """
 from common import Stats, lay, Lay, opclass, panic_text
 
 FORM5 = ("plain", "checked", "saturating", "wrapping", "overflowing")
+AZ6 = ("cast", "checked_cast", "saturating_cast", "wrapping_cast", "overflowing_cast", "static_cast")
 
 
 def expect5(D, R):
@@ -56,10 +61,61 @@ class Mon(object):
                 else:
                     st.violation("C04:%s:%s:wrong:%s" % (what, name, fam), line, "got %s expected %s" % (t, exp))
 
+    def check_az(self, line, what, fam, D, R, outs, always_fits):
+        """the five run-time casts are a second spelling of to_num/from_num and its four forms; static_cast
+        (Some only when the conversion cannot overflow for any source value) is judged when it returns Some: the value must
+        be the exact conversion result (a None where every source value fits is counted, not judged)"""
+        st = self.st
+        e = expect5(D, R)
+        self.check(line, what, fam, AZ6[:5], e, outs[0:5])
+        t = outs[5]
+        st.checks += 1
+        if t == "N":
+            if always_fits:
+                st.bump("static_cast_none_although_every_source_value_fits")
+        elif t[0] == "P":
+            st.violation("C04:%s:static_cast:panic:%s" % (what, fam), line, "panicked (%s)" % panic_text(t))
+        elif t != e[1] or not D.fits(R):
+            st.violation("C04:%s:static_cast:wrong:%s" % (what, fam), line,
+                         "static_cast returned %s, exact result %s" % (t, e[1] if D.fits(R) else "does not fit the destination"))
+        else:
+            st.bump("static_cast_some_judged")
+
     def event(self, line, toks):
         st = self.st
         op = toks[0]
-        if op == "fi":
+        if op == "zf":
+            S = lay(toks[1])
+            D = lay(toks[2])
+            a = int(toks[3], 16)
+            A = S.val(a)
+            R = conv_exact(S, D, A)
+            always = D.fits(conv_exact(S, D, S.lo)) and D.fits(conv_exact(S, D, S.hi))
+            self.check_az(line, "az_fixed_to_fixed", "%s->%s" % (S.family(), D.family()), D, R, toks[5:11], always)
+            st.cover(S.name + ">" + D.name, "zf", (opclass(S, a), "f" if D.fits(R) else ("+" if R > D.hi else "-"), toks[10][0]), a != 0, line)
+        elif op == "zi":
+            L = lay(toks[1])
+            I = intlay(toks[2] == "i", int(toks[3], 16))
+            a = int(toks[4], 16)
+            ib = int(toks[5], 16)
+            A = L.val(a)
+            iv = I.val(ib)
+            outs = toks[7:]
+            R = iv << L.f
+            self.check_az(line, "az_int_to_fixed", "%s<-%s" % (L.family(), I.family()), L, R, outs[0:6],
+                          L.fits(I.lo << L.f) and L.fits(I.hi << L.f))
+            R2 = A >> L.f
+            self.check_az(line, "az_fixed_to_int", "%s->%s" % (L.family(), I.family()), I, R2, outs[6:12],
+                          I.fits(L.lo >> L.f) and I.fits(L.hi >> L.f))
+            st.cover(L.name, "zi:" + I.family(), (opclass(L, a), opclass(I, ib), "f" if L.fits(R) else "o", "f" if I.fits(R2) else "o",
+                                                  outs[5][0], outs[11][0]), a != 0 and ib != 0, line)
+        elif op == "zb":
+            L = lay(toks[1])
+            b = int(toks[2], 16)
+            R = b << L.f
+            self.check_az(line, "az_bool_to_fixed", L.family(), L, R, toks[4:10], L.fits(1 << L.f))
+            st.cover(L.name, "zb", (str(b), "f" if L.fits(R) else "o", toks[9][0]), True, line)
+        elif op == "fi":
             L = lay(toks[1])
             isigned = toks[2] == "i"
             m = int(toks[3], 16)
@@ -171,4 +227,24 @@ def allowed_checked_panics(toks):
         D = lay(toks[2])
         R = conv_exact(S, D, S.val(int(toks[3], 16)))
         return set() if D.fits(R) else {0, 5}
+    # az casts: only the plain `cast` is a form without overflow handling
+    if op == "zf":
+        S = lay(toks[1])
+        D = lay(toks[2])
+        R = conv_exact(S, D, S.val(int(toks[3], 16)))
+        return set() if D.fits(R) else {0}
+    if op == "zi":
+        L = lay(toks[1])
+        I = intlay(toks[2] == "i", int(toks[3], 16))
+        A = L.val(int(toks[4], 16))
+        iv = I.val(int(toks[5], 16))
+        s = set()
+        if not L.fits(iv << L.f):
+            s.add(0)
+        if not I.fits(A >> L.f):
+            s.add(6)
+        return s
+    if op == "zb":
+        L = lay(toks[1])
+        return set() if L.fits(int(toks[2], 16) << L.f) else {0}
     return set()
